@@ -8,8 +8,8 @@ P20  `slice::windows(0)`, `chunks(0)`, `Iterator::step_by(0)` panic.  Every such
      constant, or a dominating test on the same quantity that excludes zero, or a reviewed reason.  (Found: an empty end
      delimiter accepted by `SyntaxConfigBuilder::build` reached `haystack.windows(0)` in `memstr`.)
 """
-from .. import flow, query
-from ..facts import const_int
+from .. import flow, query, cfg
+from ..facts import const_int, op_place
 
 FRONT = ("minijinja/src/compiler/lexer.rs", "minijinja/src/compiler/parser.rs", "minijinja/src/syntax.rs")
 REVIEWED_PANICS = {
@@ -219,3 +219,78 @@ def check_assignment_targets(ctx, prog, tag=""):
                    "the generator assigns to %s.%s with compile_assignment, which panics for everything but %s; the parser fills it "
                    "from %s" % (short, ".".join(field), sorted(supported), bad or sorted(k.split("::")[-1] for k in producers)), f.where(bb))
     return n
+
+
+def check_argument_limit(ctx, prog, tag=""):
+    """P22 (round 11, seed C01-11): the generator hands argument counts to the interpreter in narrow instruction payloads and
+    *asserts* that they fit (`assert!(n as u16 as usize == n)`); what keeps that assert unreachable is the limit the parser
+    puts on the number of written arguments.  The count the generator narrows is the written arguments plus what the call
+    form adds (the value a filter / test is applied to, a method's receiver, one map for keyword arguments), so the
+    parser's constant K must leave room: K + 16 <= max of the narrow type.  Producer and consumer are found by role: the
+    parser function that pushes `CallArg`s and compares the length with a constant on the way to an error, the generator
+    function over `CallArg`s that compares a value with its own narrowed copy in front of a panic."""
+    from .. import query
+    P = "minijinja::compiler::parser::"
+    G = "minijinja::compiler::codegen::"
+    widths = []
+    for k, f in prog.fns.items():
+        if not k.startswith(G) or f.kind == "closure":
+            continue
+        if not any("CallArg" in f.locals[l].get("s", "") for l in range(1, f.argc + 1)):
+            continue
+        panics = [c.bb for c in f.calls() if "panicking" in c.name]
+        if not panics:
+            continue
+        narrow = [(bb, st) for (bb, i, st) in query.casts(f) if st["rv"].get("to") in ("u8", "u16", "u32") and st["rv"].get("from") in ("usize", "u64")]
+        widen = {st["place"]["l"]: (bb, st) for (bb, i, st) in query.casts(f) if st["rv"].get("from") in ("u8", "u16", "u32")
+                 and st["rv"].get("to") in ("usize", "u64") and "p" not in st["place"]}
+        for sb in sorted(f.reachable):
+            if f.term(sb)["k"] != "switch":
+                continue
+            cd = flow.cond_of(f, sb)
+            if cd.kind != "bin" or cd.rv["op"] not in ("Eq", "Ne"):
+                continue
+            for x in (cd.rv["a"], cd.rv["b"]):
+                q = op_place(x) if "c" not in x else None
+                if q is not None and "p" not in q and q["l"] in widen:
+                    # the widened copy of a narrowed value is compared with something in front of a panic
+                    wbb, wst = widen[q["l"]]
+                    src = op_place(wst["rv"]["op"])
+                    for (nbb, nst) in narrow:
+                        if src is not None and "p" not in nst["place"] and nst["place"]["l"] == src["l"]:
+                            if any(pb in cfg.reach_from(f, sb) for pb in panics):
+                                widths.append((k, {"u8": 8, "u16": 16, "u32": 32}[nst["rv"]["to"]], sb))
+    limits = []
+    for k, f in prog.fns.items():
+        if not k.startswith(P) or f.kind == "closure":
+            continue
+        if "CallArg" not in f.locals[0].get("s", ""):
+            continue
+        for sb in sorted(f.reachable):
+            if f.term(sb)["k"] != "switch":
+                continue
+            cd = flow.cond_of(f, sb)
+            if cd.kind == "bin" and cd.rv["op"] in ("Gt", "Ge", "Lt", "Le"):
+                def _k(op_):
+                    v = const_int(op_)
+                    if v is not None:
+                        return v
+                    os2 = flow.origins(f, op_) if "c" not in op_ else []
+                    vs = {int(o.const["int"]) for o in os2 if o.kind == "const" and "int" in o.const}
+                    return next(iter(vs)) if len(vs) == 1 and all(o.kind == "const" for o in os2) else None
+                kb, ka = _k(cd.rv["b"]), _k(cd.rv["a"])
+                kk = kb if kb is not None else ka
+                other = cd.rv["a"] if kb is not None else cd.rv["b"]
+                if kk is None or "c" in other:
+                    continue
+                if any(o.kind == "call" and o.call.name.rsplit("::", 1)[-1] == "len" for o in flow.origins(f, other)):
+                    limits.append((k, kk, sb))
+    n = 0
+    for (gk, w, gsb) in widths[:1]:
+        for (pk, kk, psb) in limits:
+            n += 1
+            ctx.ob("C01.P22.argument-limit-leaves-room-for-the-narrow-count", "%s%s|%s" % (tag, pk.split("::")[-1], gk.split("::")[-1]),
+                   kk + 16 <= 2 ** w - 1,
+                   "the parser admits %d written arguments; the generator asserts that the count (written arguments plus receiver / "
+                   "filter value / keyword map) fits %d bits - the assert panics while the template is loaded" % (kk, w), prog.fn(pk).where(psb))
+    return n, len(widths), len(limits)
